@@ -1,7 +1,10 @@
 """Which properties are claimed, with which level / technique (source of MANIFEST.json)."""
 
 ENGINES = [
-    {"name": "E1", "path": "vsym/ + engine/", "serves_properties": ["C01"],
+    {"name": "E3", "path": "cbmc/", "serves_properties": ["C07", "C15", "C17"],
+     "kind_free_text": "rule-based mechanical extraction of integer / control-flow code to C (every rule must fire) + CBMC 6.11 code contracts "
+                       "(goto-instrument --dfcc --enforce-contract --replace-call-with-contract --apply-loop-contracts)"},
+    {"name": "E1", "path": "vsym/ + engine/", "serves_properties": ["C01", "C02", "C03", "C04", "C05", "C06", "C07", "C08", "C09", "C10", "C11", "C12", "C13", "C15", "C16", "C18"],
      "kind_free_text": "symbolic-scalar instantiation of the real templates (g++), per-path strongest postcondition, "
                        "obligations discharged by exact polynomial normal form modulo the precondition ideal (sympy rings/groebner), z3 for feasibility"},
 ]
